@@ -160,3 +160,179 @@ func fieldKindName(t types.Type) string {
 	}
 	return s[i+len("schema_j5pb."):]
 }
+
+// floatBits (R-FLOW/F2f): text of a FLOAT32 field is parsed with 32 bits.
+// Parsed as a float64 and narrowed afterwards, the shortest text of the
+// largest float32 (3.4028235e+38) lies above float64(MaxFloat32) and is
+// rejected as out of range, and a few values round twice.
+func floatBits(r *core.Run) {
+	r.Rule("R-FLOW/F2f", "in the Field_Float arm of scalarReflectFromGo (helpers included), which stores FLOAT32 fields with ValueOfFloat32: every text parse (strconv.ParseFloat, json.Number.Float64) either takes a bit-size variable that is set to 32 under a test for the FLOAT32 format, or sits itself under such a test with the constant 32; a parse fixed at 64 bits feeds both formats")
+	fd, pk := r.P.FuncDecl("lib/j5reflect", "scalarReflectFromGo")
+	if fd == nil {
+		r.Fatal("anchor: j5reflect.scalarReflectFromGo not found")
+		return
+	}
+	info := pk.TypesInfo
+	var arm *ast.CaseClause
+	ast.Inspect(fd.Body, func(n ast.Node) bool {
+		if cc, ok := n.(*ast.CaseClause); ok && arm == nil {
+			for _, e := range cc.List {
+				if fieldKindName(info.TypeOf(e)) == "Field_Float" {
+					arm = cc
+				}
+			}
+		}
+		return true
+	})
+	if arm == nil {
+		r.Fatal("R-FLOW/F2f: no Field_Float arm in scalarReflectFromGo")
+		return
+	}
+	stores32 := false
+	type parse struct {
+		call *ast.CallExpr
+		bits ast.Expr // nil: fixed at 64 (Float64())
+	}
+	var parses []parse
+	var roots []ast.Node
+	for _, st := range arm.Body {
+		roots = append(roots, core.TreeOf(pk, st, 3)...)
+	}
+	for _, root := range roots {
+		ast.Inspect(root, func(n ast.Node) bool {
+			c, ok := n.(*ast.CallExpr)
+			if !ok {
+				return true
+			}
+			switch name := core.CalleeName(info, c); {
+			case strings.HasSuffix(name, "protoreflect.ValueOfFloat32"):
+				stores32 = true
+			case name == "strconv.ParseFloat" && len(c.Args) == 2:
+				parses = append(parses, parse{c, c.Args[1]})
+			case name == "(encoding/json.Number).Float64":
+				parses = append(parses, parse{c, nil})
+			}
+			return true
+		})
+	}
+	if !stores32 {
+		return
+	}
+	// is e known to be 32 for the FLOAT32 format?
+	is32Const := func(e ast.Expr) bool {
+		k, ok := core.ConstInt(info, e)
+		return ok && k == 32
+	}
+	underFloat32 := func(n ast.Node) bool {
+		for _, root := range roots {
+			for _, rg := range core.GuardedRegions(root) {
+				if len(rg.Body) == 0 || !(rg.Body[0].Pos() <= n.Pos() && n.End() <= rg.Body[len(rg.Body)-1].End()) {
+					continue
+				}
+				if _, c, ok := core.EqConst(info, rg.Cond); ok {
+					if obj := core.UsedObj(info, c); obj != nil && strings.HasSuffix(obj.Name(), "FORMAT_FLOAT32") {
+						return true
+					}
+				}
+			}
+		}
+		return false
+	}
+	for i, p := range parses {
+		_ = i
+		o := r.Add("R-FLOW/F2f", "j5reflect.scalarReflectFromGo | Field_Float | "+core.NormExpr(info, p.call.Fun)+" bits", p.call.Pos(), "bit size of the float text parse")
+		switch {
+		case p.bits == nil:
+			o.Fail("json.Number.Float64 parses with 64 bits whatever the format: for a FLOAT32 field the text of the largest float32 is then out of range and some values round twice")
+		case is32Const(p.bits):
+			if underFloat32(p.call) {
+				o.Auto("32 bits under the FLOAT32 test")
+			} else {
+				o.Fail("parsed with 32 bits outside a test for the FLOAT32 format")
+			}
+		default:
+			if k, isConst := core.ConstInt(info, p.bits); isConst {
+				if underFloat32(p.call) {
+					o.Fail("parsed with %d bits under the FLOAT32 test", k)
+				} else {
+					o.Fail("parsed with the constant %d bits for every format: for a FLOAT32 field the shortest text of the largest float32 (3.4028235e+38) is rejected as out of range, and some values round twice", k)
+				}
+				continue
+			}
+			id, ok := core.Unparen(p.bits).(*ast.Ident)
+			set32 := false
+			if ok {
+				obj := info.ObjectOf(id)
+				for _, root := range roots {
+					ast.Inspect(root, func(n ast.Node) bool {
+						as, isAs := n.(*ast.AssignStmt)
+						if !isAs || len(as.Lhs) != len(as.Rhs) {
+							return true
+						}
+						for j, l := range as.Lhs {
+							if lid, isID := l.(*ast.Ident); isID && info.ObjectOf(lid) == obj && is32Const(as.Rhs[j]) && underFloat32(as) {
+								set32 = true
+							}
+						}
+						return true
+					})
+				}
+			}
+			if set32 {
+				o.Auto("bit size %s, set to 32 under the FLOAT32 test", core.ExprStr(p.bits))
+			} else {
+				o.Fail("the bit size %s is not shown to be 32 for the FLOAT32 format", core.ExprStr(p.bits))
+			}
+		}
+	}
+	r.Floor("R-FLOW/F2f", 1, "the text parses of the float arm")
+}
+
+// dateExists (R-ERR/E4d): a date text is accepted only when the date exists.
+// Three numbers separated by dashes are not a date: month 13, February 30 or a
+// year beyond the int32 the message holds must be rejected, not stored.
+func dateExists(r *core.Run) {
+	r.Rule("R-ERR/E4d", "date_j5t.DateFromString (helpers included) rejects text that is not an existing date: it parses with time.Parse and the layout 2006-01-02, or builds a time.Date from the three numbers and returns an error when the Month() or Day() of the result differ from them (time.Date normalises a date that does not exist into another one)")
+	fd, pk := r.P.FuncDecl("j5types/date_j5t", "DateFromString")
+	if fd == nil {
+		r.Fatal("anchor: date_j5t.DateFromString not found")
+		return
+	}
+	info := pk.TypesInfo
+	o := r.Add("R-ERR/E4d", "date_j5t.DateFromString | the date exists", fd.Pos(), "validation of the parsed date")
+	how := ""
+	core.InspectTree(pk, fd.Body, func(n ast.Node) bool {
+		switch x := n.(type) {
+		case *ast.CallExpr:
+			if core.CalleeName(info, x) == "time.Parse" && len(x.Args) == 2 {
+				if lay, ok := core.ConstString(info, x.Args[0]); ok && lay == "2006-01-02" {
+					how = "time.Parse with the layout 2006-01-02"
+				}
+			}
+		case *ast.IfStmt:
+			month, day := false, false
+			ast.Inspect(x.Cond, func(y ast.Node) bool {
+				if c, ok := y.(*ast.CallExpr); ok {
+					switch core.CalleeName(info, c) {
+					case "(time.Time).Month":
+						month = true
+					case "(time.Time).Day":
+						day = true
+					}
+				}
+				return true
+			})
+			if month && day && len(x.Body.List) > 0 {
+				if ret, ok := x.Body.List[len(x.Body.List)-1].(*ast.ReturnStmt); ok && len(ret.Results) > 0 && !core.IsNilIdent(info, ret.Results[len(ret.Results)-1]) {
+					how = "the components are compared with the Month() and Day() of the normalised time.Date"
+				}
+			}
+		}
+		return true
+	})
+	if how != "" {
+		o.Auto("%s", how)
+	} else {
+		o.Fail("three numbers are stored as they come: \"2020-13-45\" and \"2020-02-30\" decode to dates that do not exist, and a year beyond int32 wraps")
+	}
+}
